@@ -516,4 +516,107 @@ theorem mtm_BorrowOK (hT : legalThreshold T = true) : ∀ (d : Nat) (c rr : MTre
 
 end numeric
 
+/-! ### the `uint` ranges of the result slabs (`mrm_MorFit`) -/
+
+section fits
+variable {r : Nat} {T : Nat}
+
+theorem mtm_lend_struct {α : Type} (o : ElemsOps α) (T : Nat) (l rr le re : HkeyElems α)
+    (h : HkeyElems.lendToRight o T l rr = .ok (le, re)) :
+    le.level = l.level ∧ re.level = rr.level ∧ (∀ x ∈ le.hkeys, x ∈ l.hkeys) ∧
+    (∀ x ∈ re.hkeys, x ∈ l.hkeys ∨ x ∈ rr.hkeys) := by
+  simp only [HkeyElems.lendToRight] at h
+  split at h
+  · cases h
+  · revert h
+    generalize HkeyElems.lendLoop _ _ _ _ _ _ = res
+    obtain ⟨lc, ls⟩ := res
+    intro h
+    simp only [Except.ok.injEq, Prod.mk.injEq] at h
+    obtain ⟨rfl, rfl⟩ := h
+    refine ⟨rfl, rfl, fun x hx => List.mem_of_mem_take hx, fun x hx => ?_⟩
+    rcases List.mem_append.mp hx with hx | hx
+    · exact Or.inl (List.mem_of_mem_drop hx)
+    · exact Or.inr hx
+
+theorem mtm_borrow_struct {α : Type} (o : ElemsOps α) (T : Nat) (l rr le re : HkeyElems α)
+    (h : HkeyElems.borrowFromRight o T l rr = .ok (le, re)) :
+    le.level = l.level ∧ re.level = rr.level ∧ (∀ x ∈ le.hkeys, x ∈ l.hkeys ∨ x ∈ rr.hkeys) ∧
+    (∀ x ∈ re.hkeys, x ∈ rr.hkeys) := by
+  simp only [HkeyElems.borrowFromRight] at h
+  split at h
+  · cases h
+  · revert h
+    generalize HkeyElems.borrowLoop _ _ _ _ _ _ = res
+    obtain ⟨lc, ls⟩ := res
+    intro h
+    simp only [Except.ok.injEq, Prod.mk.injEq] at h
+    obtain ⟨rfl, rfl⟩ := h
+    refine ⟨rfl, rfl, fun x hx => ?_, fun x hx => List.mem_of_mem_drop hx⟩
+    rcases List.mem_append.mp hx with hx | hx
+    · exact Or.inl hx
+    · exact Or.inr (List.mem_of_mem_take hx)
+
+/-- both results of a data-slab rebalance step are in `uint` range when both operands are in the working state -/
+theorem mtm_fit_rebalanced0 (hT : legalThreshold T = true) (l rr : MDataSlab r) (b : Bool)
+    (hl : mtm_CW (r := r) T 0 l) (hr : mtm_CW (r := r) T 0 rr) :
+    mr_RootFit (r := r) 0 (msl_rebalanced T 0 l rr b).1 ∧ mr_RootFit (r := r) 0 (msl_rebalanced T 0 l rr b).2 := by
+  have h1 := msafe_work_fits hT hl.1
+  have h2 := msafe_work_fits hT hr.1
+  have fl : mr_HFit l.elems := hl.2.1
+  have fr : mr_HFit rr.elems := hr.2.1
+  cases b
+  · simp only [msl_rebalanced, Bool.false_eq_true, if_false, MTree.lendToRight, MDataSlab.lendToRight, bind, Except.bind,
+      pure, Except.pure]
+    cases hres : HkeyElems.lendToRight (MDataSlab.eops r) T l.elems rr.elems with
+    | error e => exact ⟨fl, fr⟩
+    | ok p =>
+      obtain ⟨le, re⟩ := p
+      have hs := msl_hkey_lend_sizes (MDataSlab.eops r) T l.elems rr.elems le re h1.2.2.2 h2.2.1 hres
+      obtain ⟨s1, s2, s3, s4⟩ := mtm_lend_struct (MDataSlab.eops r) T l.elems rr.elems le re hres
+      show mr_HFit le ∧ mr_HFit re
+      refine ⟨⟨by omega, by rw [s1]; exact fl.level, fun x hx => fl.dig x (s3 x hx)⟩,
+        ⟨by omega, by rw [s2]; exact fr.level, fun x hx => ?_⟩⟩
+      rcases s4 x hx with hx | hx
+      · exact fl.dig x hx
+      · exact fr.dig x hx
+  · simp only [msl_rebalanced, if_true, MTree.borrowFromRight, MDataSlab.borrowFromRight, bind, Except.bind,
+      pure, Except.pure]
+    cases hres : HkeyElems.borrowFromRight (MDataSlab.eops r) T l.elems rr.elems with
+    | error e => exact ⟨fl, fr⟩
+    | ok p =>
+      obtain ⟨le, re⟩ := p
+      have hs := msl_hkey_borrow_sizes (MDataSlab.eops r) T l.elems rr.elems le re h2.2.2.2 h1.2.1 hres
+      obtain ⟨s1, s2, s3, s4⟩ := mtm_borrow_struct (MDataSlab.eops r) T l.elems rr.elems le re hres
+      show mr_HFit le ∧ mr_HFit re
+      refine ⟨⟨by omega, by rw [s1]; exact fl.level, fun x hx => ?_⟩,
+        ⟨by omega, by rw [s2]; exact fr.level, fun x hx => fr.dig x (s4 x hx)⟩⟩
+      rcases s3 x hx with hx | hx
+      · exact fl.dig x hx
+      · exact fr.dig x hx
+
+theorem mtm_fit_rebalanced (hT : legalThreshold T = true) : ∀ (d : Nat) (l rr : MTree r d) (b : Bool),
+    mtm_CW T d l → mtm_CW T d rr →
+    mr_RootFit d (msl_rebalanced T d l rr b).1 ∧ mr_RootFit d (msl_rebalanced T d l rr b).2
+  | 0, l, rr, b, hl, hr => mtm_fit_rebalanced0 hT l rr b hl hr
+  | _ + 1, _, _, _, _, _ => ⟨trivial, trivial⟩
+
+theorem mtm_fit_merge (hT : legalThreshold T = true) : ∀ (d : Nat) (l rr : MTree r d),
+    mtm_CW T d l → mtm_CW T d rr → mr_RootFit d (MTree.merge d l rr)
+  | 0, l, rr, hl, hr => by
+    have h1 := msafe_work_fits hT hl.1
+    have h2 := msafe_work_fits hT hr.1
+    have fl : mr_HFit (MDataSlab.elems l) := hl.2.1
+    have fr : mr_HFit (MDataSlab.elems rr) := hr.2.1
+    show mr_HFit (HkeyElems.merge (MDataSlab.elems l) (MDataSlab.elems rr))
+    refine ⟨?_, fl.level, fun x hx => ?_⟩
+    · show (MDataSlab.elems l).size + ((MDataSlab.elems rr).size - Gen.hkeyElementsPrefixSize) < 2^32
+      omega
+    · rcases List.mem_append.mp hx with hx | hx
+      · exact fl.dig x hx
+      · exact fr.dig x hx
+  | _ + 1, _, _, _, _ => trivial
+
+end fits
+
 end Atree.TransEq
